@@ -64,6 +64,17 @@ def simp(x: Any) -> Any:
     return x
 
 
+class RangeStore:
+    """a bulk store (memset / memcpy of symbolic offset or length): cells lo <= i < lo + n get fn(i)"""
+
+    def __init__(self, lo: Any, n: Any, fn: Callable[[Any], Any]):
+        self.lo, self.n, self.fn = bv(lo, 64), bv(n, 64), fn
+
+    def covers(self, idx: Any) -> Any:
+        i = bv(idx, 64)
+        return z3.And(z3.ULE(self.lo, i), z3.ULT(i - self.lo, self.n))
+
+
 class Obj:
     """one allocation: 8-byte cells. `base` (optional) gives the initial content of a cell as a function of its index."""
 
@@ -96,11 +107,18 @@ class Obj:
             # is a plain term (the C code branches on exactly these facts right afterwards)
             E = engine()
             for i, x in reversed(self.stores):
+                if isinstance(i, RangeStore):
+                    if E.branch(i.covers(idx)):
+                        return simp(i.fn(bv(idx, 64)))
+                    continue
                 if (i == idx) if (is_c(i) and is_c(idx)) else E.branch(bv(i, 64) == bv(idx, 64)):
                     return x
             return self.meta['fork_base'](bv(idx, 64))
         v = self.initial(idx)
         for i, x in self.stores:
+            if isinstance(i, RangeStore):
+                v = z3.If(i.covers(idx), bv(i.fn(bv(idx, 64)), 64), bv(v, 64))
+                continue
             if is_c(i) and is_c(idx):
                 if i == idx:
                     v = x
@@ -115,10 +133,21 @@ class Obj:
 
     def read_term(self, idx: Any) -> Any:
         """the value as one if-then-else term (no forking): for obligations over a fresh index"""
+        return self.term_over(list(self.stores), idx)
+
+    def term_over(self, stores: List[Tuple[Any, Any]], idx: Any) -> Any:
+        """read_term over a snapshot of the store list (memcpy sources are read as of the time of the copy)"""
         v = self.meta['term_base'](bv(idx, 64)) if 'term_base' in self.meta else self.initial(idx)
-        for i, x in self.stores:
-            v = z3.If(bv(i, 64) == bv(idx, 64), bv(x, 64), bv(v, 64))
+        for i, x in stores:
+            if isinstance(i, RangeStore):
+                v = z3.If(i.covers(idx), bv(i.fn(bv(idx, 64)), 64), bv(v, 64))
+            else:
+                v = z3.If(bv(i, 64) == bv(idx, 64), bv(x, 64), bv(v, 64))
         return v
+
+    def write_range(self, lo: Any, n: Any, fn: Callable[[Any], Any]) -> None:
+        self.stores.append((RangeStore(lo, n, fn), None))
+        self.conc = {}
 
     def write(self, idx: Any, v: Any) -> None:
         if 'canon_idx' in self.meta:
@@ -220,12 +249,12 @@ class Machine:
             raise MemoryViolation(f'wild pointer (object id {oid})')
         return o, off
 
-    def _check_access(self, o: Obj, off: Any, n: int, what: str) -> None:
+    def _check_access(self, o: Obj, off: Any, n: Any, what: str) -> None:
         if not self.check_memory:
             return
         if not o.live:
             raise MemoryViolation(f'{what} of freed object {o.name}')
-        if is_c(off) and is_c(o.size):
+        if is_c(off) and is_c(o.size) and is_c(n):
             if off + n > o.size:
                 raise MemoryViolation(f'{what} of {n} bytes at offset {off} beyond {o.name} (size {o.size})')
             return
@@ -238,7 +267,7 @@ class Machine:
         if r != 'sat':
             raise Inconclusive(f'solver returned {r} on a bounds obligation')
         m = self.E.last_model()
-        raise MemoryViolation(f'{what} of {n} bytes can be outside {o.name}: offset {m.eval(bv(off, 64))} size {m.eval(bv(o.size, 64))}', m)
+        raise MemoryViolation(f'{what} of {n if is_c(n) else m.eval(n)} bytes can be outside {o.name}: offset {m.eval(bv(off, 64))} size {m.eval(bv(o.size, 64))}', m)
 
     def _structured(self, p: Any, n: int, what: str) -> Optional[Tuple[Obj, Any]]:
         """(object, cell index) for a pointer built as array-base + symbolic index (8-byte elements)"""
@@ -567,8 +596,21 @@ class Machine:
                 q = abs(sa) // abs(sb) * (1 if (sa < 0) == (sb < 0) else -1)
                 return (q if op == 'sdiv' else sa - q * sb) & mask
         za, zb = bv(a, bits), bv(b, bits)
-        if op in ('shl', 'lshr', 'ashr') and not is_c(b):
-            self._oblige(z3.ULT(zb, bits), f'shift amount < {bits} in {i.text[:60]}')
+        poison = None
+        if op in ('shl', 'lshr', 'ashr') and not is_c(b) and self.check_memory:
+            # LLVM: a shift by >= width yields POISON, which is undefined behaviour only when it is used (instcombine hoists the
+            # guarded shift of  (w == 64) ? ~0 : (1 << w) - 1  above its select). The result is an arbitrary fresh value in that
+            # case: a use that matters then fails some obligation with an arbitrary value, a discarded one costs nothing.
+            self.E.obligations += 1
+            r_ = self.E._check(z3.Not(z3.ULT(zb, bits)))
+            if r_ == 'unsat':
+                self.E.discharged += 1
+            elif r_ == 'sat':
+                self.E.discharged += 1
+                self.npoison = getattr(self, 'npoison', 0) + 1
+                poison = z3.BitVec(f'poison_shift_{self.npoison}', bits)
+            else:
+                raise Inconclusive(f'solver {r_} on a shift amount')
         if op in ('urem', 'udiv', 'sdiv', 'srem') and not is_c(b):
             self._oblige(zb != 0, f'divisor != 0 in {i.text[:60]}')
         if is_c(b) and op in ('shl', 'lshr', 'ashr') and b >= bits:
@@ -576,6 +618,8 @@ class Machine:
         r = {'add': lambda: za + zb, 'sub': lambda: za - zb, 'mul': lambda: za * zb, 'and': lambda: za & zb, 'or': lambda: za | zb,
              'xor': lambda: za ^ zb, 'shl': lambda: za << zb, 'lshr': lambda: z3.LShR(za, zb), 'ashr': lambda: za >> zb,
              'urem': lambda: z3.URem(za, zb), 'udiv': lambda: z3.UDiv(za, zb), 'sdiv': lambda: za / zb, 'srem': lambda: z3.SRem(za, zb)}[op]()
+        if poison is not None:
+            r = z3.If(z3.ULT(zb, bits), r, poison)
         return simp(r)
 
     def _oblige(self, cond: Any, what: str) -> None:
@@ -636,9 +680,16 @@ class Machine:
 
     def memset(self, p: Any, val: Any, n: Any) -> None:
         o, off = self.resolve(p)
-        if not (is_c(val) and is_c(off) and off % 8 == 0):
-            raise Inconclusive('memset with symbolic value/offset')
+        if not is_c(val):
+            raise Inconclusive('memset with a symbolic value')
         fill = int.from_bytes(bytes([val]) * 8, 'little')
+        if not is_c(off) or (not is_c(n) and o.meta.get('memset') is None):
+            self._bulk_aligned(off, n, 'memset')
+            self._check_access(o, off, n, f'memset')
+            o.write_range(simp(z3.LShR(bv(off, 64), 3)), simp(z3.LShR(bv(n, 64), 3)), lambda i: fill)
+            return
+        if off % 8:
+            raise Inconclusive('memset at a misaligned offset')
         if is_c(n):
             if n % 8:
                 raise Inconclusive('memset length not a multiple of 8')
@@ -653,6 +704,14 @@ class Machine:
         self._oblige(z3.ULE(bv(off, 64) + n, bv(o.size, 64)), f'memset stays inside {o.name}')
         handler(off // 8, n, fill)
 
+    def _bulk_aligned(self, off: Any, n: Any, what: str) -> None:
+        for t, nm in ((off, 'offset'), (n, 'length')):
+            if is_c(t):
+                if t % 8:
+                    raise Inconclusive(f'{what}: {nm} not a multiple of 8')
+            elif self.E._check(z3.Extract(2, 0, bv(t, 64)) != 0) != 'unsat':
+                raise Inconclusive(f'{what}: symbolic {nm} not provably a multiple of 8')
+
     def memcpy(self, d: Any, s: Any, n: Any) -> None:
         do, doff = self.resolve(d)
         so, soff = self.resolve(s)
@@ -664,7 +723,16 @@ class Machine:
             return
         handler = do.meta.get('memcpy')
         if handler is None:
-            raise Inconclusive(f'memcpy of symbolic length/offset into {do.name}')
+            self._bulk_aligned(doff, n, 'memcpy')
+            self._bulk_aligned(soff, 0, 'memcpy source')
+            self._check_access(do, doff, n, 'memcpy write')
+            self._check_access(so, soff, n, 'memcpy read')
+            if so is do:
+                raise Inconclusive('memcpy within one object')
+            snap = list(so.stores)
+            d0, s0 = simp(z3.LShR(bv(doff, 64), 3)), simp(z3.LShR(bv(soff, 64), 3))
+            do.write_range(d0, simp(z3.LShR(bv(n, 64), 3)), lambda i: so.term_over(snap, bv(s0, 64) + (i - bv(d0, 64))))
+            return
         self._oblige(z3.And(z3.ULE(bv(doff, 64) + n, bv(do.size, 64)), z3.ULE(bv(soff, 64) + n, bv(so.size, 64))),
                      f'memcpy stays inside {do.name} / {so.name}')
         handler(doff, so, soff, n)
